@@ -601,6 +601,14 @@ def r4_short_circuit(repo: Repo, rep):
                   "returns from inside the variable loop" if early else "still differentiates", "early return" if early else "no skip")
     if hit == 0:
         rep.violation(R, fi.site(), fi.fq, "a vanished graph (variable the model is linear in) yields zero instead of an error", "no grad_fn test", "no short-circuit")
+    # ... and every path that does differentiate a first derivative again has passed that test (also when the gradient was supplied by the caller)
+    for p in _op_paths(fi):
+        contributes = bool(p.phi_next) and any(_grad_calls(nx) and _split_sum(nx, n) is not None for n, nx in p.phi_next.items())
+        if not contributes:
+            continue
+        tested = any((not pol) and "grad_fn is None" in dump(g) for g, pol, k in p.guards)
+        rep.check(R, tested, fi.site(), fi.fq, "the second derivative is taken only after `grad.grad_fn is None` was found false on that path",
+                  f"guards {[(dump(g)[:40], pol) for g, pol, k in p.guards if k == 'if']}", "second derivative without the graph test")
     fi = m.functions.get("partial")
     rep.saw(fi)
     va = fi.node.args.vararg.arg
@@ -651,6 +659,28 @@ def r6_value_free_control(repo: Repo, rep):
         rep.check(R, not bad, fi.site(), fi.fq, "conditions test grad_fn / shapes / argument lists only", f"value-dependent tests: {sorted(set(bad))[:3]}", f"value tests {sorted(set(bad))[:3]}")
 
 
+def r7_no_memo(repo: Repo, rep):
+    R = rep.rule("R-C03-7", "the operators are recomputed on every call: no memoising decorator, no module-level table written by an operator", floor=8,
+                 why="tensors hash by identity: a cached derivative is returned for a tensor that was modified in place (or for another graph built on the same object)")
+    m = repo.module(MOD)
+    containers = set()
+    for n in m.tree.body:
+        if isinstance(n, (ast.Assign, ast.AnnAssign)):
+            v = n.value
+            if isinstance(v, (ast.Dict, ast.List, ast.Set)) or (isinstance(v, ast.Call) and attr_chain(v.func) in ("dict", "list", "set", "OrderedDict", "collections.OrderedDict", "defaultdict", "collections.defaultdict", "weakref.WeakKeyDictionary")):
+                for t in (n.targets if isinstance(n, ast.Assign) else [n.target]):
+                    if isinstance(t, ast.Name):
+                        containers.add(t.id)
+    for name, fi in sorted(m.functions.items()):
+        rep.saw(fi)
+        memo = [d for d in fi.decorators if any(k in d for k in ("cache", "memo", "lru"))]
+        writes = sorted({dump(n)[:50] for n in ast.walk(fi.node) if (isinstance(n, ast.Subscript) and isinstance(n.ctx, ast.Store) and isinstance(n.value, ast.Name) and n.value.id in containers)
+                         or (isinstance(n, ast.Call) and isinstance(n.func, ast.Attribute) and isinstance(n.func.value, ast.Name) and n.func.value.id in containers
+                             and n.func.attr in ("append", "update", "setdefault", "add", "insert", "extend"))
+                         or isinstance(n, ast.Global)})
+        rep.check(R, not memo and not writes, fi.site(), fi.fq, "no memoisation of derivatives", f"decorators {memo}; writes {writes[:2]}", f"memoised: {memo or writes[:2]}")
+
+
 def r5_accumulators(repo: Repo, rep):
     R = rep.rule("R-C03-5", "accumulators that are filled in place inherit dtype and device from an input (or accumulation is out of place)", floor=3,
                  why="a float32 torch.zeros buffer filled in place silently down-casts float64 derivatives; a cpu buffer fails for cuda inputs")
@@ -683,6 +713,7 @@ def run(repo: Repo, rep):
     r4_short_circuit(repo, rep)
     r5_accumulators(repo, rep)
     r6_value_free_control(repo, rep)
+    r7_no_memo(repo, rep)
 
 
 _D = "src/torchphysics/utils/differentialoperators.py"
